@@ -48,10 +48,10 @@ func c19OutFee(p c19Pol, amtToForward uint64) uint64 {
 // rounded towards zero; the rate is limited to +-1000 %.
 func c19InFee(p c19Pol, amt uint64) int64 {
 	r := int64(p.irate)
-	if r > 10_000_000 {
+	switch {
+	case r > 10_000_000:
 		r = 10_000_000
-	}
-	if r < -10_000_000 {
+	case r < -10_000_000:
 		r = -10_000_000
 	}
 	return int64(p.ibase) + r*int64(amt)/1000000
